@@ -168,7 +168,13 @@ func (q *ackProxy) Insert(prefix string, pkt packet.Packet, deadline time.Time, 
 }
 func (q *ackProxy) Ack(prefix string, pkt packet.Packet) error {
 	q.flushHeld()
-	return q.inner.Ack(prefix, pkt)
+	err := q.inner.Ack(prefix, pkt)
+	if err == nil {
+		q.w.mu.Lock()
+		q.node.AckResolved = append(q.node.AckResolved, AckInsert{Seq: q.w.nextSeq(), At: time.Now(), Session: prefix, Type: pkt.Type(), ID: midOf(pkt)})
+		q.w.mu.Unlock()
+	}
+	return err
 }
 func (q *ackProxy) Expire(now time.Time) {
 	q.flushHeld()
@@ -287,6 +293,8 @@ type Node struct {
 	wg      sync.WaitGroup
 
 	Consumed   []uint64
+	// AckResolved: the acknowledgements the queue accepted (an exchange ended by its peer, not by its deadline)
+	AckResolved []AckInsert
 	AckInserts []AckInsert
 	Dead       bool
 }
